@@ -151,6 +151,12 @@ nni_aio_init(nni_aio *aio, nni_cb cb, void *arg)
 	aio->a_init          = true;
 }
 
+/* The real nni_aio_fini tears down the aio's task (mutex and condition variable destroyed) but leaves a_init set, so a
+ * later close / stop / second fini of the same object works on destroyed synchronisation objects.  The model marks a
+ * finalised aio (a_expire_q is not used by the model otherwise) and reports any later life-cycle call on it. */
+#define ENV_AIO_DEAD(aio) ((aio) != NULL && !(aio)->a_init && (aio)->a_expire_q != NULL)
+#define ENV_AIO_LIVE_OR_NEVER(aio) CHECK(!ENV_AIO_DEAD(aio), "aio used again after nni_aio_fini (its task has been torn down)")
+
 static void
 env_cancel_with(nni_aio *aio, nng_err rv)
 {
@@ -166,6 +172,7 @@ env_cancel_with(nni_aio *aio, nng_err rv)
 void
 nni_aio_close(nni_aio *aio)
 {
+	ENV_AIO_LIVE_OR_NEVER(aio);
 	if (aio != NULL && aio->a_init) {
 		aio->a_stop = true;
 		env_cancel_with(aio, NNG_ESTOPPED);
@@ -184,6 +191,7 @@ nni_aio_wait(nni_aio *aio)
 void
 nni_aio_stop(nni_aio *aio)
 {
+	ENV_AIO_LIVE_OR_NEVER(aio);
 	if (aio != NULL && aio->a_init) {
 		aio->a_stop = true;
 		env_cancel_with(aio, NNG_ESTOPPED);
@@ -194,11 +202,13 @@ nni_aio_stop(nni_aio *aio)
 void
 nni_aio_fini(nni_aio *aio)
 {
+	ENV_AIO_LIVE_OR_NEVER(aio);
 	if (aio != NULL && aio->a_init) {
 		aio->a_stop = true;
 		env_cancel_with(aio, NNG_ESTOPPED);
 		env_run_callback_of(aio);
-		aio->a_init = false;
+		aio->a_init     = false;
+		aio->a_expire_q = (nni_aio_expire_q *) aio; /* finalised */
 	}
 }
 
